@@ -186,6 +186,100 @@ def direct_filter(rows, rkc, kwargs):
 HASHSEEDS_SEEN = {}
 
 
+class _S(str):
+    """equal to, but never identical with, the string it copies"""
+    pass
+
+
+def fresh(v, style):
+    """a run-time-built copy of a default / special argument value: equal, not the module's literal"""
+    if isinstance(v, bool):
+        return int(v) if style == "subclass" else bool(int(v))
+    if isinstance(v, str):
+        if style == "join":
+            return "".join([ch for ch in v])
+        if style == "json":
+            return json.loads(json.dumps(v))
+        return _S(v)
+    if isinstance(v, list):
+        return [fresh(x, style) for x in v]
+    return v
+
+
+def _ans(f, show):
+    try:
+        return show(f())
+    except (ValueError, IndexError, ParseException) as e:
+        return err(e)
+
+
+def defaults_calls(base, style):
+    """(answer with every defaulted argument omitted, answer with all of them passed explicitly as fresh copies)"""
+    op = base["op"]
+    empty = (lambda: None) if style == "json" else (lambda: [])      # None and a fresh empty list are both "no lines to ignore"
+    if op == "kv":
+        lines = render_kv(base["cc"], base["sep"], base["doc"])
+
+        def show(r):
+            return "ok r" + ",".join(enc(k) + ":" + enc(v) for k, v in r.items())
+        a_min = _ans(lambda: split_kv_pairs(lines), show)
+        a_exp = _ans(lambda: split_kv_pairs(fresh(lines, "json"), comment_char=fresh("#", style), filter_string=None, split_on=fresh("=", style),
+                                            use_partition=fresh(False, style), ordered=fresh(False, style)), show)
+        g1, g2 = get_active_lines(lines), get_active_lines(lines, comment_char=fresh("#", style))
+        if g1 != g2:
+            a_exp += " active-lines-differ"
+        return a_min, a_exp
+    if op == "fixed":
+        lines = render_fixed(base["table"])
+        kw_min = {}
+        if base["hi"]:
+            kw_min["heading_ignore"] = base["hi"]
+        if base["ti"]:
+            kw_min["trailing_ignore"] = base["ti"]
+        a_min = _ans(lambda: parse_fixed_table(lines, **kw_min), show_dicts)
+        a_exp = _ans(lambda: parse_fixed_table(lines, heading_ignore=fresh(base["hi"], style), header_substitute=[],
+                                               trailing_ignore=fresh(base["ti"], style), empty_exception=fresh(False, style)), show_dicts)
+        rows = _rows_or_none(lambda: parse_fixed_table(lines, **kw_min))
+    elif op == "delim":
+        lines = base["lines"]
+        kw_min = {}
+        if base["d"] is not None:
+            kw_min["delim"] = base["d"]
+        if "m" in base:
+            kw_min["max_splits"] = base["m"]
+        if not base.get("strip", True):
+            kw_min["strip"] = False
+        if base.get("hi"):
+            kw_min["heading_ignore"] = base["hi"]
+        if base.get("ti"):
+            kw_min["trailing_ignore"] = base["ti"]
+        a_min = _ans(lambda: parse_delimited_table(lines, **kw_min), show_dicts)
+        a_exp = _ans(lambda: parse_delimited_table(
+            lines, delim=fresh(base["d"], style), max_splits=int(str(base.get("m", -1))), strip=fresh(base.get("strip", True), style),
+            header_delim=fresh("same as delimiter", style), heading_ignore=fresh(base["hi"], style) if base.get("hi") else empty(),
+            header_substitute=empty(), trailing_ignore=fresh(base["ti"], style) if base.get("ti") else empty(),
+            raw_line_key=None if style != "subclass" else _S("")), show_dicts)
+        rows = _rows_or_none(lambda: parse_delimited_table(lines, **kw_min))
+    else:
+        raise ValueError(op)
+    # keyword_search on the parsed rows: parent / row_keys_change defaults spelled out
+    if rows:
+        k0, v0 = next(iter(rows[0].items()))
+        kw = {kw_of(k0): v0}
+        r1 = keyword_search(rows, **kw)
+        r2 = keyword_search(rows, parent=None, row_keys_change=fresh(False, style), **{fresh(k, style): fresh(v, style) for k, v in kw.items()})
+        if r1 != r2:
+            a_exp += " keyword-search-differs"
+    return a_min, a_exp
+
+
+def _rows_or_none(f):
+    try:
+        return f()
+    except (ValueError, IndexError, ParseException):
+        return None
+
+
 class _Parent(object):
     """an object that can take the `_transform_cache` attribute"""
     pass
@@ -470,6 +564,22 @@ def evaluate(c):
                     i, call["kwargs"], call["rkc"], r, rows, want), None))
             parts.append("%s\t%s\t%s" % (B(call["rkc"]), R(rows), P(call["kwargs"])))
         return "kshist\t" + "\t".join(parts), " | ".join(answers), fails
+    if op == "defaults":
+        # every defaulted / special argument passed EXPLICITLY as an equal but not identical object (built at run time)
+        # must behave exactly as when it is omitted — and both as the rendered data say
+        base, style = c["case"], c["style"]
+        line, impl_base, fb = evaluate(base)
+        fails += fb
+        try:
+            a_min, a_exp = defaults_calls(base, style)
+        except Exception as e:      # an explicit default must not raise where the omitted one does not
+            a_min = a_exp = "err %s: %s" % (type(e).__name__, e)
+        if a_min != impl_base:
+            fails.append(("%s with every defaulted argument OMITTED answers %s, with the arguments spelled out %s" % (base["op"], a_min[:300], impl_base[:300]), None))
+        if a_exp != a_min:
+            fails.append(("%s with the defaults passed explicitly as run-time copies (%s) answers %s, with the arguments omitted %s" % (
+                base["op"], style, a_exp[:300], a_min[:300]), None))
+        return line, a_exp, fails
     if op == "sort":
         return "sort\t" + L(c["keys"]), L(sorted(c["keys"])), fails
     if op == "hashseeds":
@@ -932,6 +1042,25 @@ def gen_ks_history(rng):
     return {"op": "kshist", "calls": calls}
 
 
+def gen_defaults(rng):
+    """a rendered kv / fixed-width / delimited case whose defaulted arguments are also passed explicitly as fresh copies"""
+    style = rng.choice(["join", "json", "subclass", "subclass"])
+    k = rng.randrange(4)
+    if k == 0:
+        for _ in range(40):
+            base = gen_kv(rng)
+            if base["cc"] == "#" and base["sep"] == "=":
+                break
+        else:
+            base = {"op": "kv", "cc": "#", "sep": "=", "doc": [["pair", 0, "k", 1, 1, "v", 0, None]], "oracle": True}
+        base["up"], base["ordered"] = False, False
+    elif k == 1:
+        base = gen_fixed(rng)
+    else:
+        base = gen_delim(rng)
+    return {"op": "defaults", "case": base, "style": style}
+
+
 def gen_sort(rng):
     """heading sets for the order the table is built in: prefixes, case, space/dash/underscore, non-ASCII, astral"""
     pool = SPECIAL + SPACEY + ["", "a", "A", "ab", "a ", "a_", "a-", "a~", "Z", "z", "é", "e\u0301", "\U0001f600", "\uffff", "\ud7ff",
@@ -1185,6 +1314,7 @@ def run(chk):
     add(gen_tab_ks, 300)
     add(gen_sort, 200)
     add(gen_ks_history, 300)
+    add(gen_defaults, 400)
     add(gen_ini, 500, False)
     add(gen_ini, 300, True)
     add(gen_ini_irregular, 200)
@@ -1201,7 +1331,7 @@ def run(chk):
         k = key_of(c)
         chk.case(k, nontrivial(c, impl) and k not in seen)
         seen.add(k)
-        tag = c["op"] + (":rendered" if c.get("oracle") else ":irregular" if c["op"] != "prim" else ":" + c["k"])
+        tag = (c["op"] + ":" + c["case"]["op"] + "/" + c["style"]) if c["op"] == "defaults" else c["op"] + (":rendered" if c.get("oracle") else ":irregular" if c["op"] != "prim" else ":" + c["k"])
         chk.count(tag)
         chk.count("answer:" + ("error" if impl.startswith("err") or impl == "parse-error" else "ok"))
         if finding:
